@@ -39,7 +39,7 @@ def client_ids(rng, count: int) -> List[str]:
 
 
 def preamble(prog, clients=('A', 'B'), shape: Optional[str] = None, skip: Optional[str] = None,
-             skip_client: str = '-') -> List[str]:
+             skip_client: str = '-', bind_clients: bool = True) -> List[str]:
     lines = [f'construct {shape if shape is not None else prog.locator_shape()}']
     if prog.enc.get('multiclient'):
         lines += [f'register {c}' for c in clients]
@@ -47,7 +47,7 @@ def preamble(prog, clients=('A', 'B'), shape: Optional[str] = None, skip: Option
         lines.append(f'bindall - {skip}')
     else:
         lines.append('bindall -')
-    if prog.enc.get('multiclient'):
+    if prog.enc.get('multiclient') and bind_clients:
         for c in clients:
             lines.append(f'bindall {c} {skip}' if (skip and skip_client == c) else f'bindall {c}')
     return lines
